@@ -5,7 +5,7 @@
 (* A result record is [k |-> "ok" | "exc", v |-> runs, t |-> exception    *)
 (* class, n |-> len(result), s |-> result.s]                              *)
 (***************************************************************************)
-EXTENDS ColorStr, FmtImpl, Spelling, Parse, Scan, Splitter, StrMethods
+EXTENDS ColorStr, FmtImpl, Spelling, Parse, Tokenizer, Splitter, StrMethods
 
 V(clause, exact) == <<IF clause = "ok" THEN "ok" ELSE "fail", IF clause = "ok" THEN "" ELSE clause,
                       IF exact THEN "exact" ELSE "drift">>
@@ -129,12 +129,12 @@ JudgeAny(e) ==
   ELSE IF ~HasIntro(e.s) THEN
        (IF e.res.s # e.s THEN V("Any.PlainVerbatim", FALSE)
         ELSE IF ~Unformatted(e.res.v) THEN V("Any.PlainUnformatted", FALSE)
-        ELSE V("ok", TRUE))
+        ELSE V("ok", e.res.s = ImplAnyText(e.s)))
   ELSE IF ~IsSubseq(e.res.s, e.s) THEN V("Any.OnlyRemoves", FALSE)
   ELSE IF ~IsSubseq(MustKeep(e.s), e.res.s) THEN V("Any.KeepsOrdinaryText", FALSE)
   ELSE IF OrdinaryCsi(e.s) /\ e.res.s # Strip(e.s) THEN V("Any.OrdinaryCsiStripped", FALSE)
   ELSE IF ~Consistent(e.res) THEN V("Any.LenText", FALSE)
-  ELSE V("ok", TRUE)
+  ELSE V("ok", e.res.s = ImplAnyText(e.s))
 
 (* ---------------------------------------------------------------- C10 *)
 JudgeWidth(e) ==
